@@ -68,6 +68,7 @@ type Sched struct {
 	victim      string
 	starveTo    int
 	gnames      map[string]string
+	gbase       map[string]int // goroutines named after each first-park site so far
 	Stats       Stats
 	OrderSeed   uint64
 	lockTriples map[string]struct{}
@@ -114,6 +115,7 @@ func New(seed uint64, strategy string) *Sched {
 		Diverged:    -1,
 		prio:        map[string]int{},
 		gnames:      map[string]string{},
+		gbase:       map[string]int{},
 		Quantum:     10 * time.Millisecond,
 		IdleLimit:   400,
 		OrderSeed:   SplitMix(seed ^ 0x0bde),
@@ -235,6 +237,20 @@ func (s *Sched) choose(en []*Item) *Item {
 			s.prio[en[best].Owner] = -s.Steps
 		}
 		return en[best]
+	case "lag":
+		// goroutines that were just woken by a channel receive (they sit at a "yield:" point, see
+		// simgen/selects.go) are held back as long as anything else can run - a goroutine preempted
+		// right after it got its answer; which yield sites lag (a quarter of them) is a function of the run's seed
+		var rest []*Item
+		for _, it := range en {
+			if strings.HasPrefix(it.Key, "yield:") && lagSite(it.Key, s.OrderSeed) {
+				continue
+			}
+			rest = append(rest, it)
+		}
+		if len(rest) > 0 {
+			return rest[s.rng.Intn(len(rest))]
+		}
 	case "starve":
 		if s.victim == "" && s.rng.Intn(15) == 0 {
 			s.victim = en[s.rng.Intn(n)].Owner
@@ -256,6 +272,17 @@ func (s *Sched) choose(en []*Item) *Item {
 		}
 	}
 	return en[s.rng.Intn(n)]
+}
+
+func lagSite(key string, seed uint64) bool {
+	// only the receives of the NRI stub and adaptation lag; the receive loops of the mux and of ttRPC
+	// sit under every message and lagging them merely slows everything down evenly
+	if !strings.HasPrefix(key, "yield:pkg/stub/") && !strings.HasPrefix(key, "yield:pkg/adaptation/") {
+		return false
+	}
+	h := fnv.New64a()
+	h.Write([]byte(key))
+	return (h.Sum64()^seed)%3 == 0 // a third of those sites per run
 }
 
 // ErrStuck is returned by Run when nothing was enabled for IdleLimit quanta.
@@ -284,13 +311,27 @@ func (s *Sched) Run(maxSteps int) error {
 				fresh = append(fresh, it)
 			}
 		}
-		sort.SliceStable(fresh, func(i, j int) bool { return fresh[i].Key < fresh[j].Key })
+		// (goroutines that first park at the same site in the same step - the demultiplexers of two muxes
+		// created back to back - are told apart by their creation order, i.e. their goroutine ids)
+		sort.SliceStable(fresh, func(i, j int) bool {
+			if fresh[i].Key != fresh[j].Key {
+				return fresh[i].Key < fresh[j].Key
+			}
+			a, _ := strconv.Atoi(fresh[i].gid)
+			b, _ := strconv.Atoi(fresh[j].gid)
+			return a < b
+		})
 		for _, it := range fresh {
 			n, ok := s.gnames[it.gid]
 			if !ok {
-				// an unnamed goroutine is named after the place where it first parked (not by a
-				// counter: a counter would let one flipped arrival order rename every later goroutine)
+				// an unnamed goroutine is named after the place where it first parked (not by a global
+				// counter: a counter would let one flipped arrival order rename every later goroutine);
+				// a second goroutine first parking at the same place gets "#2", and so on
 				n = "g@" + it.Key
+				s.gbase[n]++
+				if c := s.gbase[n]; c > 1 {
+					n = fmt.Sprintf("%s#%d", n, c)
+				}
 				s.gnames[it.gid] = n
 			}
 			it.Owner = n
